@@ -477,6 +477,9 @@ type loopOp struct {
 	Query  string `json:"query"`
 	Cancel bool   `json:"cancel"`
 	Toggle bool   `json:"toggle_sort"`
+	// ChangeNth: before this request the search scope changes (change-nth): the coordinator clears the
+	// pattern cache and the chunk cache and bumps the minor revision
+	ChangeNth bool `json:"change_nth,omitempty"`
 }
 
 type loopPlan struct {
@@ -538,9 +541,14 @@ func genLoopPlan(r *zsim.Rng) *loopPlan {
 	for i := 0; i < nops; i++ {
 		op := loopOp{Query: pool[r.Intn(len(pool))], Cancel: r.Chance(1, 2), Toggle: r.Chance(1, 10)}
 		op.GapMs = []int{0, 0, 0, 1, 3, 10, 40, 120, 500}[r.Intn(9)]
+		op.ChangeNth = r.Chance(1, 15)
 		if cacheStress {
 			op.Toggle = r.Chance(1, 3)
 			op.GapMs = []int{40, 120, 500}[r.Intn(3)]
+			op.ChangeNth = r.Chance(1, 4)
+			if op.ChangeNth {
+				op.GapMs = []int{0, 0, 1, 3}[r.Intn(4)] // while the previous search is still running
+			}
 		}
 		p.Ops = append(p.Ops, op)
 	}
@@ -558,6 +566,7 @@ type loopReq struct {
 	chunks  []*Chunk
 	want    []int32
 	hasWant bool
+	nth     []Range
 }
 
 type loopPub struct {
@@ -601,8 +610,12 @@ func runLoop(c *runCtx) {
 	evb := util.NewEventBox()
 	rev := revision{}
 	pc := map[string]*Pattern{}
-	m := NewMatcher(cache, func(r []rune) *Pattern { return plan.Match.pattern(cache, pc, rev, string(r), true) },
-		plan.Match.Sort, plan.Match.Tac, evb, rev)
+	var curNth []Range
+	m := NewMatcher(cache, func(r []rune) *Pattern {
+		mc := plan.Match
+		mc.nth = curNth
+		return mc.pattern(cache, pc, rev, string(r), true)
+	}, plan.Match.Sort, plan.Match.Tac, evb, rev)
 	m.partitions = P
 	m.slab = make([]*util.Slab, P)
 	if plan.Poison%4 != 0 {
@@ -722,7 +735,7 @@ func runLoop(c *runCtx) {
 				snapshotBad = fmt.Sprintf("empty snapshot although %d records had been pushed", before)
 			}
 		}
-		r := &loopReq{seq: len(reqs), rev: rev, query: q, final: final, sort: sortNow, cancel: cancel, frozen: fr, chunks: snap}
+		r := &loopReq{seq: len(reqs), rev: rev, query: q, final: final, sort: sortNow, cancel: cancel, frozen: fr, chunks: snap, nth: curNth}
 		reqs = append(reqs, r)
 		sim.Logf("req %d q=%q cancel=%v final=%v n=%d rev=%v", r.seq, q, cancel, final, len(fr), rev)
 		m.Reset(snap, []rune(q), cancel, final, sortNow, rev)
@@ -736,6 +749,17 @@ func runLoop(c *runCtx) {
 			}
 			if op.Toggle {
 				sortNow = !sortNow
+			}
+			if op.ChangeNth {
+				if curNth == nil {
+					curNth = []Range{newRange(1, 1)}
+				} else {
+					curNth = nil
+				}
+				pc = map[string]*Pattern{}
+				cache.Clear()
+				rev.bumpMinor()
+				c.count("probe.change_nth", 1)
 			}
 			lastQ = op.Query
 			submit(op.Query, op.Cancel)
@@ -815,6 +839,7 @@ func runLoop(c *runCtx) {
 		if !r.hasWant {
 			mc := plan.Match
 			mc.Sort = r.sort
+			mc.nth = r.nth
 			r.want = indicesOf(freshFilter(r.frozen, r.query, mc))
 			r.hasWant = true
 		}
